@@ -272,6 +272,32 @@ func C01(x *Ctx) {
 		if dec[len(dec)-1].Idx != want[len(want)-1].Idx {
 			x.fail("end", "end", "track %d: published run ends at unit %d, expected %d (last segment rotation during write %d)", track, dec[len(dec)-1].Idx, want[len(want)-1].Idx, wR)
 		}
+		// a segment that was published and left the window again within one Write (a multi-unit audio
+		// Write that rotates more segments than SegmentCount) is in no playlist a sequential observer
+		// can fetch: between two observed segments whose MSNs are not consecutive, and whose later one
+		// was first listed after such a Write, the run has an unobservable hole
+		msnOf := map[int]int{}
+		for _, sg := range segs {
+			for _, u := range sg.Units {
+				msnOf[u.Idx] = sg.MSN
+			}
+		}
+		rotationsIn := map[int]int{}
+		for _, r := range h.Rounds {
+			for _, k := range r.Rotated {
+				if k == "segments" {
+					rotationsIn[r.N]++
+				}
+			}
+		}
+		unobservableHole := func(prevIdx, idx int) bool {
+			a, ok1 := msnOf[prevIdx]
+			b, ok2 := msnOf[idx]
+			if !ok1 || !ok2 || b <= a+1 {
+				return false
+			}
+			return rotationsIn[sv.Segs[b].FirstRound] > c.Cfg.SegmentCount
+		}
 		// contiguity and per-unit checks
 		for i, d := range dec {
 			if d.Track != track || d.Idx < 0 {
@@ -281,7 +307,9 @@ func C01(x *Ctx) {
 			if i > 0 {
 				prev := dec[i-1]
 				pe := exp[unitOfSample[prev.Idx]]
-				if d.Idx != prev.Idx+pe.N {
+				if d.Idx != prev.Idx+pe.N && d.Idx > prev.Idx && unobservableHole(prev.Idx, d.Idx) {
+					x.Stats.Add("C01.segments_not_observable", 1)
+				} else if d.Idx != prev.Idx+pe.N {
 					kind := "gap"
 					if d.Idx <= prev.Idx {
 						kind = "dup-or-reorder"
@@ -303,7 +331,12 @@ func C01(x *Ctx) {
 		// contiguous base times across fragments (fMP4)
 		if c.Cfg.Variant != media.VarTS {
 			var prevEnd int64 = -1
+			prevMSN := -1
 			for _, s := range segs {
+				if prevMSN >= 0 && s.MSN > prevMSN+1 && rotationsIn[sv.Segs[s.MSN].FirstRound] > c.Cfg.SegmentCount {
+					prevEnd = -1 // (see above: the segments in between were never observable)
+				}
+				prevMSN = s.MSN
 				for _, f := range s.U.Frags {
 					for _, t := range f.Tracks {
 						if len(t.Samples) == 0 || t.Samples[0].Track != track {
